@@ -305,6 +305,87 @@ def i2(prog, ctx):
     return n
 
 
+def i7(prog, ctx, tag="I7"):
+    """The distributor knows every number the annotation already uses: whenever an annotation is given, the constructor runs BOTH scans (gene
+    ids and transcript ids of the chromosome) to the end - no path leaves between or before them except the one without annotation."""
+    from ..engine import flow
+    f = prog.func_inlined(IDP, "ExcludingIdDistributor.__init__")
+    scans = [l for l in walk_no_nested(f) if isinstance(l, ast.For) and not flow.enclosing_loops(l)
+             and any(isinstance(c, ast.Call) and (call_name(c) or "").endswith(".region") for c in ast.walk(l.iter))
+             and any(isinstance(c, ast.Call) and isinstance(c.func, ast.Attribute) and c.func.attr == "add" for c in ast.walk(l))]
+    if len(scans) < 2:
+        ctx.undecided(tag, f, f._qualname, "the two scans over the annotation (genes, transcripts) were not found as top-level loops (%d found)" % len(scans))
+        return
+    db_param = next((a.arg for a in f.args.args if "db" in a.arg), None)
+    n = 0
+    for pth in flow.paths(f):
+        if pth.exit not in ("return", "fall"):
+            continue
+        no_db = any(((isinstance(t, ast.UnaryOp) and isinstance(t.op, ast.Not) and src(t.operand) == db_param and pol)
+                     or (src(t) == db_param and not pol)
+                     or (isinstance(t, ast.Compare) and src(t.left) == db_param and isinstance(t.ops[0], ast.Is) and pol))
+                    for c, p_ in pth.conds() for t, pol in flow.conjuncts(c, p_))
+        if no_db:
+            continue
+        n += 1
+        missing = [l for l in scans if not any(s_ is l for s_ in pth.stmts())]
+        # a loop left early (break / return inside) does not scan everything
+        early = [l for l in scans if any(isinstance(x, (ast.Break, ast.Return)) for x in ast.walk(l))]
+        if missing or early:
+            l = (missing or early)[0]
+            ctx.fail(tag, pth.exit_node or l, f._qualname, "scan skipped: for ... in %s" % src(l.iter)[:60],
+                     "with an annotation given, the constructor can finish on the path [%s] without having scanned %s to the end: numbers "
+                     "that reference ids already use stay free, and a novel transcript / gene is given the id of a reference one"
+                     % (pth.describe()[:140], src(l.iter)[:60]))
+            break
+    else:
+        ctx.ok(tag, "%s:%d" % (IDP, f.lineno), "all %d paths with an annotation run both scans (%s)" % (n, "; ".join(src(l.iter)[:40] for l in scans)))
+    ctx.floor(tag, "constructor paths with an annotation", n, 1)
+
+
+def i8(prog, ctx):
+    """A table that remembers the id found for a feature during one call must be keyed by everything the id depends on: ids are looked up by
+    (chromosome, coordinates, strand), so a per-call cache keyed by coordinates alone gives two features on opposite strands one id."""
+    from ..engine.dataflow import dependency_roots
+    from ..engine import flow
+    TP_ = "src/transcript_printer.py"
+    n = 0
+    for m, q, f in prog.all_functions():
+        if m.rel not in (TP_, IDP):
+            continue
+        local_dicts = {}
+        for st in walk_no_nested(f):
+            if isinstance(st, ast.Assign) and len(st.targets) == 1 and isinstance(st.targets[0], ast.Name) and \
+                    ((isinstance(st.value, ast.Dict) and not st.value.keys) or (isinstance(st.value, ast.Call) and call_name(st.value) in ("dict", "OrderedDict")
+                                                                                  and not st.value.args)):
+                local_dicts[st.targets[0].id] = st
+        for st in walk_no_nested(f):
+            if not (isinstance(st, ast.Assign) and isinstance(st.targets[0], ast.Subscript) and isinstance(st.targets[0].value, ast.Name)
+                    and st.targets[0].value.id in local_dicts):
+                continue
+            D = st.targets[0].value.id
+            # remembered values: something is read back from D under the same key expression
+            K = st.targets[0].slice
+            reads = [x for x in walk_no_nested(f) if (isinstance(x, ast.Subscript) and isinstance(x.ctx, ast.Load) and src(x.value) == D)
+                     or (isinstance(x, ast.Call) and src(x.func) == D + ".get")]
+            if not reads:
+                continue
+            n += 1
+            outer = flow.enclosing_loops(local_dicts[D])
+            loops = [l for l in flow.enclosing_loops(st) if isinstance(l, ast.For) and not any(l is o for o in outer)]
+            loop_vars = {x.id for l in loops for x in ast.walk(l.target) if isinstance(x, ast.Name)}
+            key_bases = {r.split(".")[0] for r in dependency_roots(f, [K])} | {x.id for x in ast.walk(K) if isinstance(x, ast.Name)}
+            val_bases = {r.split(".")[0] for r in dependency_roots(f, [st.value])}
+            bad = sorted((val_bases & loop_vars) - key_bases)
+            if bad:
+                ctx.fail("I8", st, q, "%s[%s] = %s" % (D, src(K), src(st.value)[:40]), "the per-call table %s remembers a value under the key %s, "
+                         "but the value also depends on %s, which changes from one iteration to the next while the table lives on: a later "
+                         "item with the same %s gets the id computed for another %s" % (D, src(K), "/".join(bad), src(K), "/".join(bad)))
+            else:
+                ctx.ok("I8", "%s:%d" % (m.rel, st.lineno), "%s: table %s keyed by %s covers the loop variables its values depend on" % (q, D, src(K)))
+    ctx.ok("I8", "printer / id modules", "%d per-call remembering tables examined" % n, nontrivial=False)
+
+
 def i3(prog, ctx):
     n = 0
     # novel TranscriptModel constructions: the id argument embeds chr_id
@@ -325,6 +406,51 @@ def i3(prog, ctx):
                 else:
                     ctx.ok("I3", "%s:%d" % (rel, node.lineno), "novel transcript id embeds chr_id: %s" % env_text)
                 n += 1
+    # the textual prefix of a novel transcript id is the constant the distributor recognises reserved numbers by
+    for node_fn, idexpr in [(enclosing_function(c), c.args[2]) for rel in sorted(prog.modules) for c in ast.walk(prog.modules[rel].tree)
+                            if isinstance(c, ast.Call) and call_name(c) == "TranscriptModel" and len(c.args) >= 6]:
+        if node_fn is None or not getattr(node_fn, "_qualname", None):
+            continue
+        fin = prog.func_inlined(node_fn._module.rel, node_fn._qualname) if getattr(node_fn, "_module", None) is not None else node_fn
+        from ..engine.dataflow import single_def_env
+        env = single_def_env(fin)
+        # leftmost term of the concatenation that forms the id
+        e = idexpr
+        hops = 0
+        opaque_helper = False
+        while hops < 12:
+            hops += 1
+            if isinstance(e, ast.BinOp) and isinstance(e.op, (ast.Add, ast.Mod)):
+                e = e.left
+            elif isinstance(e, ast.Name) and e.id in env:
+                e = env[e.id]
+            elif isinstance(e, ast.Name):
+                ds = [a.value for a in walk_no_nested(fin) if isinstance(a, ast.Assign) and any(src(t) == e.id for t in a.targets)]
+                if len({src(d) for d in ds}) == 1:
+                    e = ds[0]
+                else:
+                    break
+            elif isinstance(e, ast.Call) and call_name(e) and call_name(e) not in ("getattr", "str", "format"):
+                # a formatting helper of the project: continue in what it returns, with the arguments put in place of its parameters
+                cands = [f3 for _m3, q3, f3 in prog.all_functions() if q3.split(".")[-1] == call_name(e).split(".")[-1]]
+                rets = [r for f3 in cands for r in walk_no_nested(f3) if isinstance(r, ast.Return) and r.value is not None] if len(cands) == 1 else []
+                if len(rets) != 1:
+                    opaque_helper = bool(cands)
+                    break
+                from ..engine.argswap import bind_args
+                e = symexec.subst(rets[0].value, {k: v for k, v in bind_args(e, cands[0]).items()})
+            else:
+                break
+        n += 1
+        if src(e) == "TranscriptNaming.transcript_prefix":
+            ctx.ok("I3", "%s:%d" % (node_fn._module.rel, idexpr.lineno), "novel transcript id starts with TranscriptNaming.transcript_prefix")
+        elif isinstance(e, (ast.BoolOp, ast.IfExp, ast.Call, ast.Constant, ast.Attribute, ast.JoinedStr)) and not opaque_helper:
+            ctx.fail("I3", idexpr, node_fn._qualname, "id prefix %s" % src(e)[:60], "the prefix of a novel transcript id is %s, not the constant "
+                     "TranscriptNaming.transcript_prefix by which ExcludingIdDistributor recognises the numbers an annotation already "
+                     "uses: with another prefix the reserved numbers of ids of that form are not excluded and an id of the annotation "
+                     "is given out again" % src(e)[:60])
+        else:
+            ctx.undecided("I3", idexpr, node_fn._qualname, "cannot follow the prefix of the novel transcript id (%s)" % src(e)[:50])
     # exon ids
     gid = prog.func(IDP, "FeatureIdStorage.get_id")
     stores = [s for s in walk_no_nested(gid) if isinstance(s, ast.Assign) and isinstance(s.targets[0], ast.Subscript)
@@ -606,6 +732,12 @@ def run(prog, ctx):
     ctx.rule("I6", "the loop that preloads reference exon ids into FeatureIdStorage has no break / return, and the store (and every "
                    "continue) is guarded only by tests for the presence of the id attribute")
     i6(prog, ctx)
+    ctx.rule("I7", "whenever an annotation is given, every path through ExcludingIdDistributor.__init__ runs both scans of the chromosome's "
+                   "records (gene ids, transcript ids) to the end")
+    i7(prog, ctx)
+    ctx.rule("I8", "in the printer and id modules a dict created inside a function and read back under the key it is filled with depends, in "
+                   "what it stores, on no loop variable (of loops it outlives) that is not part of the key")
+    i8(prog, ctx)
     ctx.rule("I4", "the exon-id key tuple has the same arity and component order (chr,start,end,strand) in loader and lookup; "
                    "reference ids stored verbatim; printers of one task share one storage")
     n1 = i1(prog, ctx)
